@@ -48,8 +48,9 @@ DidL     == {"ok44", "ok32", "len31", "len45", "nonb58", "wrongmethod", "upperpr
 DidCls(l)     == IF l \in {"ok44", "ok32"} THEN "ok" ELSE "bad"
 DocL     == {"valid", "nil", "empty", "idmismatch", "novm", "noauth", "rich"}
 DocCls(l)     == IF l \in {"valid", "rich"} THEN "ok" ELSE "bad"
-VmIdL    == {"s1", "s128", "s0", "s129", "space", "tab", "foreign", "nohash"}
-VmIdCls(l)    == IF l \in {"s1", "s128"} THEN "ok" ELSE "bad"
+\* the suffix after the FIRST "#" is what the limit and the non-space rule apply to: further "#" are ordinary characters of it
+VmIdL    == {"s1", "s128", "s0", "s129", "space", "tab", "newline", "foreign", "nohash", "hash2", "hash2space", "hash2long", "hash2s128"}
+VmIdCls(l)    == IF l \in {"s1", "s128", "hash2", "hash2s128"} THEN "ok" ELSE "bad"
 KeyTypeL == {"es19", "es18", "ed25", "unknown", "empty"}
 KeyTypeCls(l) == IF l = "empty" THEN "bad" ELSE "ok"
 PubKeyL  == {"b58", "nonb58", "empty", "b58short"}
